@@ -435,3 +435,63 @@ benign("c14-not-in-form", ["C14"], [(M, '''        if newname == active_script o
 benign("c14-nested-success", ["C14"], [(M, '''        if not self.deletescript(oldname):
             return False
         return True''', '''        return self.deletescript(oldname)''')])
+
+# --------------------------------------------------------------------------- C16
+seeded("u1-order-changed", ["C16"], "U1", [(M, '''SUPPORTED_AUTH_MECHS = ["DIGEST-MD5", "PLAIN", "LOGIN", "OAUTHBEARER"]''', '''SUPPORTED_AUTH_MECHS = ["DIGEST-MD5", "LOGIN", "PLAIN", "OAUTHBEARER"]''')])
+seeded("u2-method-renamed", ["C16"], "U2", [(M, "    def _login_authentication(", "    def _login_auth(")], "LOGIN is never executed by the suite")
+seeded("u3-named-mech-falls-back", ["C16"], "U3", [(M, '''        for mech in mech_list:
+            if mech not in srv_mechanisms:
+                continue''', '''        if mech_list[0] not in srv_mechanisms:
+            mech_list = SUPPORTED_AUTH_MECHS
+        for mech in mech_list:
+            if mech not in srv_mechanisms:
+                continue''')], "caller names PLAIN, server lacks it: another mechanism is tried")
+seeded("u3-tries-next-on-failure", ["C16"], "U3", [(M, '''                self.authenticated = True
+                return True
+            return False
+''', '''                self.authenticated = True
+                return True
+''')], "a refused PLAIN is followed by LOGIN with the same password")
+seeded("u3-ignores-server-list", ["C16"], "U3", [(M, '''            if mech not in srv_mechanisms:
+                continue
+''', '')])
+seeded("u3-flag-on-failure", ["C16", "C10"], {"C16": "U3", "C10": "A3"}, [(M, '''                self.authenticated = True
+                return True
+            return False''', '''                self.authenticated = True
+                return True
+            self.authenticated = True
+            return False''')])
+seeded("u4-plain-order", ["C16"], "U4", [(M, '''b"\\0".join([authz_id, login, password])''', '''b"\\0".join([login, authz_id, password])''')], "authzid empty in the suite")
+seeded("u4-login-lines-swapped", ["C16"], "U4", [(M, '''            b'"%s"' % base64.b64encode(login),
+            b'"%s"' % base64.b64encode(password),''', '''            b'"%s"' % base64.b64encode(password),
+            b'"%s"' % base64.b64encode(login),''')])
+seeded("u4-oauth-missing-ctrl-a", ["C16"], "U4", [(M, '''password + b"\\001\\001"''', '''password + b"\\001"''')])
+seeded("u4-credentials-swapped-at-dispatch", ["C16"], "U4", [(M, '''                login.encode("utf-8"),
+                password.encode("utf-8"),
+                authz_id.encode("utf-8"),''', '''                login.encode("utf-8"),
+                authz_id.encode("utf-8"),
+                password.encode("utf-8"),''')])
+seeded("u4-latin1-credentials", ["C16"], "U4", [(M, '''                login.encode("utf-8"),
+                password.encode("utf-8"),''', '''                login.encode("utf-8"),
+                password.encode("latin-1", "replace"),''')])
+seeded("u5-escape-dropped", ["C16"], "U5", [(M, '''        login = login.replace(b"=", b"=3D").replace(b",", b"=2C")
+''', '')], "pre-fix behaviour")
+seeded("u5-escape-order", ["C16"], "U4", [(M, '''login.replace(b"=", b"=3D").replace(b",", b"=2C")''', '''login.replace(b",", b"=2C").replace(b"=", b"=3D")''')], "comma -> =2C -> =3D2C")
+seeded("u6-new-py2-call", ["C16"], "U6", [(M, '''        params = base64.b64encode(b"\\0".join([authz_id, login, password]))''', '''        params = base64.b64encode(b"\\0".join([authz_id, login, password]))
+        params = unicode(params)''')])
+benign("c16-plain-concat", ["C16"], [(M, '''b"\\0".join([authz_id, login, password])''', '''authz_id + b"\\0" + login + b"\\0" + password''')])
+benign("c16-explicit-dispatch-table", ["C16", "C10"], [(M, '''            if auth_method(
+                login.encode("utf-8"),
+                password.encode("utf-8"),
+                authz_id.encode("utf-8"),
+            ):
+                self.authenticated = True
+                return True
+            return False''', '''            ok = auth_method(
+                login.encode("utf-8"),
+                password.encode("utf-8"),
+                authz_id.encode("utf-8"),
+            )
+            if ok:
+                self.authenticated = True
+            return ok''')])
